@@ -504,6 +504,15 @@ CheckerSeeds == {
   FoldSeed(<<"99999999999999999999">>, "Rejected")
 }
 ValidSeeds == {
+  \* a CONSTANT scrutinee and type arms / type tests it cannot reach, whose bodies use the binder at the arm's type; a field
+  \* named twice in a struct literal (the last initialiser is the field) accessed on the literal
+  FoldSeed(<<"(", "(", ")", "->", "any", "{", "return", "match", "5", "{", "s", ":", "string", "=>", "s", "+", "\"s\"", ",", "n", ":", "int", "=>", "n", "+", "1", ",", "}", "}", ")">>, "Accepted"),
+  FoldSeed(<<"(", "(", ")", "->", "any", "{", "u", ":=", "5", ";", "return", "match", "u", "{", "s", ":", "string", "=>", "s", "+", "\"s\"", ",", "a", ":", "[", "int", "]", "=>", "a", "[", "0", "]", ",", "n", ":", "int", "=>", "n", "+", "1", ",", "}", "}", ")">>, "Accepted"),
+  FoldSeed(<<"(", "(", ")", "->", "any", "{", "u", ":=", "if", "true", "5", "else", "\"s\"", ";", "r", ":=", "if", "s", ":", "string", "=", "u", "{", "s", "+", "\"s\"", "}", "else", "{", "\"s\"", "}", ";", "return", "r", "}", ")">>, "Accepted"),
+  FoldSeed(<<"(", "(", ")", "->", "any", "{", "return", "match", "\"s\"", "{", "n", ":", "int", "=>", "1", "<<", "n", ",", "s", ":", "string", "=>", "s", "+", "\"s\"", ",", "}", "}", ")">>, "Accepted"),
+  FoldSeed(<<"(", "(", ")", "->", "any", "{", "return", "struct", "{", "a", ":=", "1", ",", "a", ":=", "\"s\"", "}", ".", "a", "+", "\"s\"", "}", ")">>, "Accepted"),
+  FoldSeed(<<"(", "(", ")", "->", "any", "{", "return", "[", "1", ",", "5", "]", "[", "struct", "{", "a", ":=", "\"s\"", ",", "a", ":=", "1", "}", ".", "a", "]", "}", ")">>, "Accepted"),
+  FoldSeed(<<"(", "(", ")", "->", "any", "{", "(", "p", ",", "q", ",", "r", ")", ":=", "struct", "{", "t", ":=", "(", "1", ",", "2", ")", ",", "t", ":=", "(", "1", ",", "2", ",", "5", ")", "}", ".", "t", ";", "return", "p", "+", "q", "+", "r", "}", ")">>, "Accepted"),
   \* an element of type ! (it never yields: an index into the empty array literal) in a NON-last position of a tuple / array /
   \* struct literal: the elements behind it, and the names a destructuring binds to them, are still there
   FoldSeed(<<"(", "(", "x", ":", "int", ")", "->", "any", "{", "(", "a", ",", "b", ",", "c", ")", ":=", "(", "1", ",", "[", "]", "[", "x", "]", ",", "3", ")", ";", "return", "c", "}", ")">>, "Accepted"),
